@@ -20,9 +20,9 @@ theorem mask_nonempty (i : Inst) (s : State) : ∃ a, a < env.nAct i ∧ env.mas
   by_cases h : ((s.cur == 0 || s.tech == i.T - 1) && anyLoc i s) = true
   · simp only [Bool.and_eq_true, anyLoc, List.any_eq_true, List.mem_range] at h
     obtain ⟨_, k, hk, hl⟩ := h
-    exact ⟨k + 1, by simp [env]; omega, by simp [env, mask, hl]⟩
+    exact ⟨k + 1, by simp [env]; omega, by simp [env, mask_eq, maskRef, hl]⟩
   · refine ⟨0, by simp [env], ?_⟩
-    simp only [env, mask, if_true]
+    simp only [env, mask_eq, maskRef, if_true]
     cases hh : ((s.cur == 0 || s.tech == i.T - 1) && anyLoc i s)
     · rfl
     · exact absurd hh h
@@ -47,7 +47,7 @@ theorem unvisited_step_customer (i : Inst) (s : State) (a : Nat) (h0 : a ≠ 0) 
   unfold unvisited
   have : (fun k => !(step i s a).vis (k + 1)) = upd (fun k => !s.vis (k + 1)) (a - 1) false := by
     funext k
-    simp only [step, upd_apply]
+    simp only [step_eq, stepRef, upd_apply]
     by_cases hk : k + 1 = a
     · have : k = a - 1 := by omega
       rw [if_pos hk, if_pos this]; rfl
@@ -62,7 +62,7 @@ theorem unvisited_step_depot (i : Inst) (s : State) : unvisited i (step i s 0) =
   unfold unvisited
   apply cnt_congr
   intro j _
-  simp [step]
+  simp [step_eq, stepRef]
 
 theorem unvisited_zero_iff (i : Inst) (s : State) : unvisited i s = 0 ↔ AllVis i s := by
   unfold unvisited
@@ -85,12 +85,12 @@ theorem steps_account (i : Inst) {s s' : State} {as : List Nat} (h : Run env i s
     by_cases h0 : a = 0
     · subst h0
       have hu := unvisited_step_depot i s
-      have ht : (step i s 0).tech = s.tech + 1 := by simp [step]
+      have ht : (step i s 0).tech = s.tech + 1 := by simp [step_eq, stepRef]
       simp only [List.length_cons]
       omega
     · have hc := mask_customer h0 hm
       have hu := unvisited_step_customer i s a h0 ha hc.1
-      have ht : (step i s a).tech = s.tech := by simp [step, h0]
+      have ht : (step i s a).tech = s.tech := by simp [step_eq, stepRef, h0]
       simp only [List.length_cons]
       omega
 
@@ -100,10 +100,10 @@ def DepotSeen (s : State) : Prop := 1 ≤ s.tech → s.vis 0 = true
 theorem depotSeen_step (i : Inst) (s : State) (a : Nat) (h : DepotSeen s) : DepotSeen (step i s a) := by
   intro ht
   by_cases h0 : a = 0
-  · subst h0; simp [step]
-  · simp only [step, h0, if_false, Nat.add_zero] at ht
+  · subst h0; simp [step_eq, stepRef]
+  · simp only [step_eq, stepRef, h0, if_false, Nat.add_zero] at ht
     have := h ht
-    simp only [step, upd_apply]
+    simp only [step_eq, stepRef, upd_apply]
     split <;> simp [this]
 
 theorem done_of_allVis (i : Inst) (s : State) (hall : AllVis i s) (h0 : s.vis 0 = true) :
@@ -129,7 +129,7 @@ theorem ndInv_step (i : Inst) (hw : WF i) (s : State) (a : Nat) (hi : NDInv i s)
   simp only [env] at hm hd ⊢
   by_cases h0 : a = 0
   · subst h0
-    have ht : (step i s 0).tech = s.tech + 1 := by simp [step]
+    have ht : (step i s 0).tech = s.tech + 1 := by simp [step_eq, stepRef]
     rw [ht]
     -- an unfinished state with all customers visited has not seen the depot, hence tech = 0
     by_cases hlt : s.tech + 1 ≤ i.T - 1
@@ -138,7 +138,7 @@ theorem ndInv_step (i : Inst) (hw : WF i) (s : State) (a : Nat) (hi : NDInv i s)
       rcases hi.techOk with h1 | hall
       · -- tech = T-1: the depot is only admitted when nothing is servable, i.e. all customers visited
         have htl : s.tech = i.T - 1 := by omega
-        simp only [mask, if_true, Bool.not_eq_true', Bool.and_eq_false_iff, Bool.or_eq_false_iff,
+        simp only [mask_eq, maskRef, if_true, Bool.not_eq_true', Bool.and_eq_false_iff, Bool.or_eq_false_iff,
           beq_eq_false_iff_ne, ne_eq] at hm
         have hany : anyLoc i s = false := by
           rcases hm with h | h
@@ -175,7 +175,7 @@ theorem ndInv_step (i : Inst) (hw : WF i) (s : State) (a : Nat) (hi : NDInv i s)
           · have := hi.seen h; rw [hv0] at this; exact absurd this (by simp)
           · omega
         omega
-  · have ht : (step i s a).tech = s.tech := by simp [step, h0]
+  · have ht : (step i s a).tech = s.tech := by simp [step_eq, stepRef, h0]
     rw [ht]; exact hi.bound
 
 theorem ndInv_of_runND (i : Inst) (hw : WF i) {s s' : State} {as : List Nat} (h : RunND env i s as s')
@@ -240,13 +240,13 @@ theorem single_technician_overflow :
       (fun s _ a hi _ _ => by
         intro hv
         by_cases h0 : a = 0
-        · subst h0; simp [env, step]
+        · subst h0; simp [env, step_eq, stepRef]
         · have : s.vis 0 = true := by
-            simp only [env, step, upd_apply] at hv
+            simp only [env, step_eq, stepRef, upd_apply] at hv
             have : (0 : Nat) ≠ a := fun h => h0 h.symm
             simpa [this] using hv
           have := hi this
-          simp only [env, step, h0, if_false]; omega) hr
+          simp only [env, step_eq, stepRef, h0, if_false]; omega) hr
   have hv0 := all_visited_of_done _ s' hd 0 (by decide)
   have := hinv hv0
   simp only [techOverflow, decide_eq_true_eq]
